@@ -3,6 +3,7 @@ package props
 import (
 	"bytes"
 	"fmt"
+	"sync"
 
 	"github.com/ulikunitz/xz/lzma"
 
@@ -362,4 +363,62 @@ func libDecodeBuf(format string, data []byte, dict, bufSize int) (out []byte, er
 		out, err, proto = readAll(rd, bufSize, 256<<20)
 	})
 	return
+}
+
+// finalOpStreams: small reference-written streams that END in each kind of LZMA operation
+// (literal, near / mid / far / maximal match, rep0..rep3, short rep), in the three .lzma
+// termination modes, as a raw LZMA2 chunk sequence and inside an .xz block. The last bytes of a
+// range-coded stream are consumed by the last operations; which decoding step meets the end of a
+// truncated input depends on the final operation (and on the data before it: several variants).
+var (
+	finalOpOnce sync.Once
+	finalOpList []Stream
+)
+
+func finalOpStreams() []Stream {
+	finalOpOnce.Do(func() {
+		m := func(l int, d uint32) ref.Op { return ref.Op{Kind: ref.OpMatch, Len: l, Dist: d} }
+		lit := func(b byte) ref.Op { return ref.Op{Kind: ref.OpLit, Byte: b} }
+		sufs := []struct {
+			name string
+			ops  []ref.Op
+		}{
+			{"lit", []ref.Op{lit('q')}},
+			{"match-near", []ref.Op{m(3, 2)}},
+			{"match-mid", []ref.Op{m(6, 40)}},
+			{"match-far", []ref.Op{m(20, 300)}},
+			{"match-273", []ref.Op{m(273, 1)}},
+			{"rep0", []ref.Op{m(4, 9), lit('x'), {Kind: ref.OpRep0, Len: 3}}},
+			{"shortrep", []ref.Op{m(4, 9), lit('x'), {Kind: ref.OpShortRep}}},
+			{"rep1", []ref.Op{m(4, 9), m(3, 17), {Kind: ref.OpRep1, Len: 2}}},
+			{"rep2", []ref.Op{m(4, 9), m(3, 17), m(5, 33), {Kind: ref.OpRep2, Len: 4}}},
+			{"rep3", []ref.Op{m(4, 9), m(3, 17), m(5, 33), m(2, 65), {Kind: ref.OpRep3, Len: 2}}},
+		}
+		pr := ref.Props{LC: 3, LP: 0, PB: 2}
+		for v := 0; v < 6; v++ {
+			text := textBytes(200+v, 330+v)
+			base := ref.GreedyOps(0, text, 4096)
+			for _, sf := range sufs {
+				ops := append(append([]ref.Op(nil), base...), sf.ops...)
+				for _, mode := range []struct {
+					n        string
+					size, mk bool
+				}{{"eos", false, true}, {"size", true, false}, {"size+eos", true, true}} {
+					data, plain, err := ref.EncodeAlone(pr, 4096, ops, mode.size, mode.mk)
+					if err != nil {
+						panic("finalOpStreams: " + err.Error())
+					}
+					finalOpList = append(finalOpList, Stream{Name: fmt.Sprintf("final-%s-lzma-%s-v%d", sf.name, mode.n, v), Fmt: "lzma", Data: data, Plain: plain, Writer: "ref"})
+				}
+				lz2, plain, err := encodeOpsLZMA2(ops, pr)
+				if err != nil {
+					panic("finalOpStreams: " + err.Error())
+				}
+				finalOpList = append(finalOpList,
+					Stream{Name: fmt.Sprintf("final-%s-lzma2-v%d", sf.name, v), Fmt: "lzma2", Data: lz2, Plain: plain, DictSize: 4096, Writer: "ref"},
+					Stream{Name: fmt.Sprintf("final-%s-xz-v%d", sf.name, v), Fmt: "xz", Data: ref.EncodeXZStream(ref.CheckCRC32, []ref.XZBlockSpec{{LZMA2: lz2, Plain: plain, DictCode: 0}}), Plain: plain, Writer: "ref"})
+			}
+		}
+	})
+	return finalOpList
 }
